@@ -1,0 +1,24 @@
+package ast
+
+import (
+	"context"
+	"testing"
+
+	"github.com/inspirer/textmapper/parsers/js"
+)
+
+func TestEmptyNodeAtEOI(t *testing.T) {
+	const input = `a = 1`
+	tree, err := Parse(context.Background(), "a.js", input, js.StopOnFirstError)
+	if err != nil {
+		t.Fatalf("Parse(%q) failed with %v", input, err)
+	}
+	// The semicolon gets inserted at the very end of the input.
+	n := tree.Root().Child(func(nt js.NodeType) bool { return nt == js.InsertedSemicolon })
+	if n == nil {
+		t.Fatalf("Parse(%q) lost the inserted semicolon", input)
+	}
+	if n.Offset() != len(input) || n.Endoffset() != len(input) {
+		t.Errorf("InsertedSemicolon at [%v, %v), want: [%v, %v)", n.Offset(), n.Endoffset(), len(input), len(input))
+	}
+}
